@@ -2,6 +2,7 @@
 // prepared (a QUERY frame) and reads everything the server says through ONE Iter.
 //
 //   pages  <api> <fv> <prefetch%> <k> (<logical response> WIRE <wire>)*k     spec-backed
+//   pagesn ...  (api scanner)                                                model + specification compared in the driver
 //   pagesx ...                                                               model-vs-code
 //
 // The scripted node answers the k-th request of the query (the QUERY itself, then the fetch of every further
@@ -423,6 +424,9 @@ func (x *runner) pagesOps(v int, reps int) {
 				}
 				class = "pagesx/short-row"
 			}
+		}
+		if op == "pages" && api == "scanner" {
+			op = "pagesn" // the Scanner over pages: specification compared in the driver, theorem for Iter.Scan only so far
 		}
 		toks := []string{op, api, fmt.Sprint(v), fmt.Sprint(pf), fmt.Sprint(len(rs))}
 		for _, r := range rs {
